@@ -762,7 +762,11 @@ def force(self, lv):
     v = _orig_force(self, lv)
     new = [oid for oid in self.heap if oid not in before]
     if new:
-        for snap in self.snapshots.values():
+        heaps = list(self.snapshots.values())
+        for st in (getattr(self, 'prestate', None), getattr(self, 'headstate', None)):
+            if st is not None and 'heap' in st:
+                heaps.append(st['heap'])  # (the state a counter-model is read from)
+        for snap in heaps:
             for oid in new:
                 if oid not in snap:
                     snap[oid] = self.heap[oid].clone()
